@@ -2,6 +2,8 @@
 C02 — authorization codes: single use, client-bound, redirect-bound, expiring.
 -/
 import IdpyVerif.Proofs.Redeem
+import IdpyVerif.Proofs.Scope
+import IdpyVerif.Proofs.Cascade
 namespace Idpy.Props.C02
 open Idpy Idpy.Provider
 
@@ -202,6 +204,23 @@ theorem replay_revokes (cfg : Cfg) (s : St) (client : Str) (code : Nat) (rd : Op
       obtain ⟨y, hy, hk⟩ := this
       exact ⟨y, hy, hk.id.trans hxid, hk.revoked hxr⟩
   exact key kids toks1 ⟨_, h1, rfl, rfl⟩
+
+/-- … and everything derived from those tokens in turn, through any number of `based_on` links
+    (refresh tokens minted from the code, access tokens minted from those refresh tokens, …), in
+    every reachable state (`SInv`, proved for all histories by `run_sinv`) -/
+theorem replay_revokes_transitively (cfg : Cfg) (s : St) (client : Str) (code : Nat) (rd : Option Str)
+    (hs : SInv s)
+    (hoidc : cfg.oidc = true) (ct : Tok) (hct : findTok s code = some ct) (hcls : ct.cls = .code)
+    (g : Gr) (hg : findGr s ct.gid = some g) (hused : ct.used ≠ 0) :
+    ∀ d, Desc s.toks g.id code d →
+      ∃ t' ∈ (step cfg s (.tokenParse client code rd)).1.toks, t'.id = d.id ∧ t'.revoked = true := by
+  intro d hd
+  simp only [step, hct, hg, hcls, hoidc]
+  simp only [ne_eq, not_true_eq_false, if_false, true_and, hused, not_false_eq_true, if_true]
+  have hblt : BLt s.toks := fun x hx => (hs.lt x hx).2
+  have hn := DescN.mono (Nat.le_succ _) (desc_within_length hblt hd)
+  obtain ⟨y, hy, k, hrev⟩ := revokeBasedOn_reaches _ _ _ _ _ hn
+  exact ⟨y, hy, k.id, hrev⟩
 
 end Idpy.Props.C02
 
